@@ -198,6 +198,7 @@ type fh struct {
 	nilPre       bool              // the preloaded value is nil / the zero value (tag "nilpre")
 	nestedDerive bool              // ... with a context it derived from its own (WithTimeout), cancelled afterwards (tag "nested-derive")
 	nested       bool              // the builder of key 0 calls Get for key 1 on the same front-end (tag "nested")
+	capKey0      bool              // the backend lowers the TTL of every write of key 0 to one second through WithTTL(ctx, 1s, true) (tag "capkey0")
 	sideSM       *cache.ShardedMap // caches the builder itself writes to (tag "sidewrite")
 	sideOF       *cache.ShardedMapOf[int]
 	walkFail     bool              // before the Gets start somebody walks the backend and gives up at the first entry (tag "walkfail")
@@ -379,6 +380,11 @@ func (b *bwrap) Write(ctx context.Context, key []byte, v interface{}) error {
 
 	b.h.ev(e)
 
+	if b.h.capKey0 && b.h.keyIndex(key) == 0 {
+		// a backend that keeps entries of one key for a second at most: it lowers the TTL the documented way
+		_ = cache.WithTTL(ctx, time.Second, true)
+	}
+
 	return b.inner.Write(ctx, key, v)
 }
 
@@ -539,6 +545,10 @@ func (b *bwrapOf) Write(ctx context.Context, key []byte, v Tok) error {
 	}
 
 	b.h.ev(FEv{Kind: "write", Key: b.h.keyIndex(key), TTL: cache.TTL(ctx), Tok: v, Nil: v == Tok{}, Name: string(key)})
+
+	if b.h.capKey0 && b.h.keyIndex(key) == 0 {
+		_ = cache.WithTTL(ctx, time.Second, true)
+	}
 
 	return b.inner.Write(ctx, key, v)
 }
@@ -763,6 +773,10 @@ func newFH(cfg FCfg) *fh {
 
 		if t == "nilpre" {
 			h.nilPre = true
+		}
+
+		if t == "capkey0" {
+			h.capKey0 = true
 		}
 	}
 
